@@ -12,6 +12,10 @@ CHECKS = {
   text="RFC 6901 evaluation is the abstract layer of spec/JSONPointer.tla; TLC checks that the pc-machine transcription of Resolve/find/findIdx refines it for three adversarial documents and all pointers up to 3 raw tokens in three spellings, and every enumerated pointer plus seeded random trees (valid pointers to every node, fragment spellings, single-edit mutants, JSON and YAML documents) is resolved by the real jsonpointer.Resolve with the returned node's identity judged by TLC.",
   note="Bounded token count and tree depth; duplicate member names and YAML aliases are outside the domain; a dangling '~' may be read literally or refused (both admitted, DESIGN.md §5 C16). Trusted: TLC, Json module, go-faster/yaml as document parser, node identity by pointer comparison.",
   tech=TECH+"TLC-enumerated replay into jsonpointer.Resolve with TLC-evaluated observation check"),
+ "C18": dict(cat="model_checking", ref="DESIGN.md §5 C18",
+  text="Spellings (structured JSON texts) carry both their byte text and their denotation in spec/JSONEqual.tla (numbers as exact decimals on digit sequences); TLC checks over all 47 961 ordered pairs of a 219-spelling domain that the transcription of json/equal.go equals semantic equality and is reflexive and symmetric, and judges every observed json.Equal(a,b)/(b,a)/(a,a) result and the schema parser's duplicate-enum verdict for every enumerated pair, for seeded random values spelled twice plus one-leaf mutants, and for malformed byte-mutants (never true).",
+  note="Bounded value depth 2 (enumerated) / 3 (random); exponents within +-400; for texts with repeated member names only symmetry/reflexivity are demanded (denotation last-wins is drift-only); malformedness of mutants is an environment fact from encoding/json.Valid. Trusted: TLC, Json module, the Go renderer for random spellings (re-checked by TLC: Text(sp) = text).",
+  tech=TECH+"TLC-enumerated replay into json.Equal and jsonschema enum parsing with TLC-evaluated observation check"),
 }
 NA = [
  ("C13", "pure numeric/text codec fidelity of single strconv/time calls: no state or transitions to specify, TLC has no floats and 32-bit integers (DESIGN.md §6)"),
